@@ -691,6 +691,7 @@ def run(ctx):
         "round trips use the default dimension names/units: a VTK file does not carry them and the property does not list them",
         "text representation: relative error <= 5e-10 per coordinate/value (ten significant digits)",
     ]
+    core.df_stage(ctx, df)   # mixed histories (spec/DF.tla): the clauses that come from this property's text
     return core.finish(ctx, rule=RULE, extra={"embeddings": [e.name for e in embs], "value_scales": VSCALES})
 
 
